@@ -11,6 +11,8 @@ CONSTANTS
   FixNonRequest = TRUE
   FixLongWs = TRUE
   FarChoices = {FALSE}
+  HasValidator = TRUE
+  NilPointerSkipsValidation = TRUE
 INIT TableInit
 NEXT TableNextQuiet
 VIEW fullview
